@@ -16,16 +16,14 @@ fn impl_build_id(b: &[u8]) -> String {
     }
 }
 
-/// SONAME extraction is outside the Coq model; it must at least never panic
+/// SONAME extraction against the Coq model of both lookup paths (ElfSoname.v): value, error or panic
 fn soname_total(out: &mut Out, b: &[u8]) {
     let bb = b.to_vec();
-    let r = quiet_catch(move || SoName::read_from_module((&bb[..]).into()).is_ok());
-    out.count(&format!("soname.{}", match r { Ok(true) => "name", Ok(false) => "error", Err(_) => "panic" }));
-    if r.is_err() {
-        let mut l = Line::new("const"); l.u(0); l.vec(b);
-        let mut res = Line::bare(); res.u(2); res.vec(b);
-        out.case(l.s(), res.s(), true);
-    }
+    let r = quiet_catch(move || SoName::read_from_module((&bb[..]).into()).map(|x| x.0.into_bytes()));
+    out.count(&format!("soname.{}", match &r { Ok(Ok(_)) => "name", Ok(Err(_)) => "error", Err(_) => "panic" }));
+    let got = match r { Err(_) => "2".to_string(), Ok(Err(_)) => "1".to_string(), Ok(Ok(n)) => { let mut l = Line::bare(); l.u(0).bytes(&n); l.0 } };
+    if b.len() <= 3000 { let mut l = Line::new("c14_soname"); l.bytes(b); out.case(l.s(), &got, got.starts_with('0')); }
+    else if got == "2" { let mut l = Line::new("const"); l.u(0); l.vec(b); let mut res = Line::bare(); res.u(2); res.vec(b); out.case(l.s(), res.s(), true); }
 }
 
 pub fn run_mut(a: &Args) {
